@@ -433,7 +433,22 @@ func verifC01ClientIP(r *verifutil.Rand, us []verifC01User, aim *verifC01User) [
 	}
 }
 
+// the request proper (without oracle columns): can be re-presented against another user list
+type verifC01Q struct {
+	action, path, user, pass, token, cv string
+	ip                                  []byte
+	ask                                 bool
+}
+
+func (q *verifC01Q) op(r *verifutil.Rand, us []verifC01User) string {
+	return verifC01AuthOp(r, us, q.action, q.path, q.user, q.pass, q.token, q.ip, q.ask, q.cv)
+}
+
 func verifC01Request(r *verifutil.Rand, us []verifC01User) string {
+	return verifC01RequestQ(r, us).op(r, us)
+}
+
+func verifC01RequestQ(r *verifutil.Rand, us []verifC01User) *verifC01Q {
 	action := verifC01Actions[r.Intn(6)]
 	path := verifC01Paths[r.Intn(len(verifC01Paths))]
 	user := verifC01Names[r.Intn(len(verifC01Names))]
@@ -497,7 +512,141 @@ func verifC01Request(r *verifutil.Rand, us []verifC01User) string {
 			}
 		}
 	}
-	return verifC01AuthOp(r, us, action, path, user, pass, token, verifC01ClientIP(r, us, aim), r.Chance(2, 3), cv)
+	return &verifC01Q{action: action, path: path, user: user, pass: pass, token: token, cv: cv,
+		ip: verifC01ClientIP(r, us, aim), ask: r.Chance(2, 3)}
+}
+
+// a well-formed entry for the plain credentials (pu, pp), stored plain / sha256 / argon2
+func verifC01CleanCred(r *verifutil.Rand, plain string, kind int) string {
+	switch kind {
+	case 0:
+		return plain
+	case 1:
+		return "sha256:" + verifC01Sha(plain)
+	default:
+		return "argon2:" + verifC01ArgonOf(plain, byte(r.Intn(2)))
+	}
+}
+
+func verifC01CleanUser(r *verifutil.Rand, pu, pp string, action, path string) verifC01User {
+	u := verifC01User{
+		User: conf.Credential(verifC01CleanCred(r, pu, r.Intn(3))),
+		Pass: conf.Credential(verifC01CleanCred(r, pp, r.Intn(3))),
+	}
+	verifC01Plain[string(u.User)] = pu
+	verifC01Plain[string(u.Pass)] = pp
+	if r.Chance(1, 3) {
+		js, _ := json.Marshal(r.Pick("10.0.0.0/8", "::ffff:10.0.0.0/104", "10.1.0.0/16"))
+		var n conf.IPNetwork
+		if n.UnmarshalJSON(js) == nil {
+			u.IPs = conf.IPNetworks{n}
+		}
+	}
+	u.Permissions = []conf.AuthInternalUserPermission{{Action: conf.AuthAction(action), Path: r.Pick("", path)}}
+	if r.Chance(1, 3) {
+		u.Permissions = append(u.Permissions, conf.AuthInternalUserPermission{
+			Action: conf.AuthAction(verifC01Actions[r.Intn(6)]), Path: verifC01CfgPath[r.Intn(len(verifC01CfgPath))]})
+	}
+	return u
+}
+
+// Histories aimed at state that must NOT survive: the very same request is presented before and
+// after a reload that changes exactly one entry at the same index (and repeated without reload).
+func verifC01Sticky(r *verifutil.Rand, thorough bool) []string {
+	action := verifC01Actions[r.Intn(6)]
+	path := r.Pick("cam1", "cam2", "dir/cam1", "live")
+	pu, pp := verifC01Names[r.Intn(3)], verifC01Names[4+r.Intn(3)]
+	n := 1 + r.Intn(3)
+	t := r.Intn(n)
+	var us []verifC01User
+	for i := 0; i < n; i++ {
+		if i == t {
+			us = append(us, verifC01CleanUser(r, pu, pp, action, path))
+		} else {
+			o := verifC01Users(r)
+			if len(o) == 0 || string(o[0].User) == "any" {
+				o = []verifC01User{verifC01CleanUser(r, "carol", "s3cret!", verifC01Actions[r.Intn(6)], "cam2")}
+			}
+			us = append(us, o[0])
+		}
+	}
+	q := &verifC01Q{action: action, path: path, user: pu, pass: pp, cv: "n", ask: r.Bool()}
+	q.ip = [][]byte{{10, 1, 2, 3}, {10, 1, 255, 1}, {0, 0, 0, 0, 0, 0, 0, 0, 0, 0, 0xff, 0xff, 10, 1, 0, 9}}[r.Intn(3)]
+	orig := us
+	ops := []string{"reset " + verifC01EncUsers(us), q.op(r, us)}
+	if r.Bool() {
+		ops = append(ops, q.op(r, us)) // same request again, no reload
+	}
+	rounds := 2 + r.Intn(3)
+	if thorough {
+		rounds = 2 + r.Intn(6)
+	}
+	other := func(cur string, pool []string) string {
+		for {
+			c := pool[r.Intn(len(pool))]
+			if c != cur {
+				return c
+			}
+		}
+	}
+	curU, curP := pu, pp
+	for k := 0; k < rounds; k++ {
+		us = append([]verifC01User{}, us...)
+		e := us[t]
+		var q2 *verifC01Q // a request with the new credentials, where they changed
+		switch r.Intn(8) {
+		case 0, 1: // password changed (any storage kind)
+			curP = other(curP, verifC01Names[4:7])
+			e.Pass = conf.Credential(verifC01CleanCred(r, curP, r.Intn(3)))
+			verifC01Plain[string(e.Pass)] = curP
+		case 2: // user name swapped
+			curU = other(curU, verifC01Names[0:3])
+			e.User = conf.Credential(verifC01CleanCred(r, curU, r.Intn(3)))
+			verifC01Plain[string(e.User)] = curU
+		case 3: // permissions changed: no longer grants / grants something else
+			a2 := other(action, verifC01Actions)
+			e.Permissions = []conf.AuthInternalUserPermission{{Action: conf.AuthAction(a2), Path: r.Pick("", "cam2", "other")}}
+			if r.Bool() {
+				e.Permissions[0].Action = conf.AuthAction(action)
+				e.Permissions[0].Path = other(path, []string{"cam1", "cam2", "dir/cam1", "live", "zzz"})
+			}
+		case 4: // entry replaced by a different principal at the same index
+			curU, curP = other(curU, verifC01Names[0:3]), other(curP, verifC01Names[4:7])
+			e = verifC01CleanUser(r, curU, curP, r.Pick(action, other(action, verifC01Actions)), path)
+		case 5: // same credentials re-encoded (plain <-> sha256 <-> argon2): must keep working
+			e.User = conf.Credential(verifC01CleanCred(r, curU, r.Intn(3)))
+			e.Pass = conf.Credential(verifC01CleanCred(r, curP, r.Intn(3)))
+		case 6: // back to the original list
+			us = append([]verifC01User{}, orig...)
+			e = us[t]
+			curU, curP = pu, pp
+		default: // entry removed: the following entries shift down to its index
+			us = append(us[:t:t], us[t+1:]...)
+			if len(us) == 0 || t >= len(us) {
+				us = append(us, verifC01CleanUser(r, other(curU, verifC01Names[0:3]), other(curP, verifC01Names[4:7]), action, path))
+				t = len(us) - 1
+			}
+			e = us[t]
+		}
+		us[t] = e
+		ops = append(ops, "reload "+verifC01EncUsers(us))
+		ops = append(ops, q.op(r, us)) // the OLD request, unchanged
+		if curU != q.user || curP != q.pass {
+			q2 = &verifC01Q{action: q.action, path: q.path, user: curU, pass: curP, cv: "n", ask: q.ask, ip: q.ip}
+			if r.Chance(2, 3) {
+				ops = append(ops, q2.op(r, us))
+			}
+		}
+		if r.Chance(1, 3) {
+			ops = append(ops, q.op(r, us))
+		}
+		if r.Chance(1, 4) { // from now on the "old" request is the one with the current credentials
+			if q2 != nil {
+				q = q2
+			}
+		}
+	}
+	return ops
 }
 
 func verifC01IPNetOp(r *verifutil.Rand) string {
@@ -539,12 +688,16 @@ func verifC01Gen(r *verifutil.Rand, i int, thorough bool) []string {
 		}
 		return ops
 	}
+	if i%3 == 1 {
+		return verifC01Sticky(r, thorough)
+	}
 	us := verifC01Users(r)
 	ops := []string{"reset " + verifC01EncUsers(us)}
 	n := 3 + r.Intn(6)
 	if thorough {
 		n = 3 + r.Intn(12)
 	}
+	var qs []*verifC01Q
 	for k := 0; k < n; k++ {
 		if r.Chance(1, 8) {
 			switch r.Intn(3) {
@@ -564,7 +717,13 @@ func verifC01Gen(r *verifutil.Rand, i int, thorough bool) []string {
 			}
 			ops = append(ops, "reload "+verifC01EncUsers(us))
 		}
-		ops = append(ops, verifC01Request(r, us))
+		if len(qs) != 0 && r.Chance(1, 4) { // an earlier request again, against the current list
+			ops = append(ops, qs[r.Intn(len(qs))].op(r, us))
+			continue
+		}
+		q := verifC01RequestQ(r, us)
+		qs = append(qs, q)
+		ops = append(ops, q.op(r, us))
 	}
 	return ops
 }
